@@ -293,7 +293,14 @@ SPEC = {
     "finding_key": finding_key,
     "shrink": shrink,
     "search": search,
-    "rule": "C04.fix: programs = type-directed generated sources using every declaration kind (enum, struct with method, static/"
+    "rule": "C04.fix tpl: function templates with value parameters (int / uint / bool, `typename T, T N`, two parameters) and type "
+            "parameters deduced from literal arguments; bodies combine the parameter with untyped literals in int / uint / float "
+            "contexts (initialisers, compound assignments, operands, loop bounds, ?:, case labels, overloaded-function and intrinsic "
+            "arguments, unary operators, array sizes); arguments are unsuffixed / suffixed literals and literal expressions, bools "
+            "and (1 program in 4) typed constants / casts; plus sibling shapes (enum values, constants folded into array sizes, "
+            "static const initialisers, default parameter values, case labels from constants, literal arguments of overloads and "
+            "intrinsics); every call carries its ordinal, the generator's own record of argument kinds names the one known class "
+            "(an Int32 argument printed bare), any other failure is a violation. C04.fix: programs = type-directed generated sources using every declaration kind (enum, struct with method, static/"
             "groupshared globals, cbuffer with register, resources of 16 object types with register/space annotations and "
             "bind-group attributes, arrays, function template, namespace, overloads, default / out / inout parameters, every "
             "statement form, casts, swizzles, intrinsics) + resource/pipeline programs + the literal stream (numeric literals of "
@@ -357,9 +364,19 @@ SPEC = {
                   "relative-path-resolves-elsewhere). path_lookup_as_modelled pins the bodies of find_identifier, walk_into_scopes, "
                   "scoped_name_to_identifier, the start scope per base, the emitted base and the stage / arm structure of "
                   "find_identifier_in_scope to the re-extracted Gen.PathLookup; the C04.names stream compares the model's lookups "
-                  "(positive and negative, both generations) with the real compiler. The legs' property theorems (C10 literals, C09 round trip, C15 "
+                  "(positive and negative, both generations) with the real compiler. "
+                  "(6) Kind of constants: emitted_literal_kind_stable - every constant kind except Int32 is read "
+                  "back from its spelling with the kind the IR constant had; a template value argument written as a literal is "
+                  "recorded (parse_and_evaluate_constant_expression, find_overload_casts: re-extracted by Gen.TemplateConst, "
+                  "template_const_as_modelled) with a kind that is not Int32, the constant substituted inside the instance has that "
+                  "kind and the second compilation records it again; template_instance_reelab(_stmt): for such a kind the instance "
+                  "body (substValue over any expression of the C03 model) is a parser-producible tree again, so (1) applies to it; "
+                  "emitted_literal_kind_int32_witness: for an Int32 argument (f<K>, f<(int)3>) the call site prints a bare literal, "
+                  "`int y = N + 1` is Add(Int32, Int32) first and Cast(int, Add(IntLiteral, IntLiteral)) second (known finding, "
+                  "reproducers in the corpus); mutant_discipline_loses_literal_kind: recording a literal argument as Int32 (seeded "
+                  "mutant C04-4) puts f<3> into that case. The legs' property theorems (C10 literals, C09 round trip, C15 "
                   "names) and their Gen tables are obligations of C04. Partial: structural statements, declarations, structs, "
-                  "templates, intrinsic calls and the text leg of trees with casts are not in a Lean composition theorem; they are "
+                  "template instantiation itself (naming of instances, headers, loops / switch / array sizes in instance bodies), intrinsic calls and the text leg of trees with casts are not in a Lean composition theorem; they are "
                   "exercised by the whole-program fixpoint run and the re-elaboration stream.",
     "trusted_base": [
         "Lean 4.33 kernel; axioms propext / Classical.choice / Quot.sound only (audited by #print axioms)",
@@ -374,6 +391,10 @@ SPEC = {
         "parse_expr_internal does with each syntax node before typing), rereadConst / negConst / retagTo (payloads; tied by "
         "reread_payloads_as_modelled and by the value-level byte comparison of the correspondence runs)",
         "tools/gens/c04.py (FixpointTables: parse_literal, the to_literal test of the Cast arm, the literal shortcut of apply)",
+        "Model/FixpointTemplate.lean (restrictKind / recordKind / instanceKind / secondRecordKind / substValue: the way of a template "
+        "value argument) - tied by template_const_as_modelled (tools/gens/c04.py TemplateConst) and by the C04.fix tpl stream "
+        "through the property's own oracle; the generator's record of argument kinds (harness/src/c04/tmpl.rs Kind, classify) is "
+        "trusted for naming the known class only",
         "the C04.reelab correspondence run: the model's prediction of the second-generation IR skeleton vs the real front end on the "
         "real emitted text",
         "Model/FixpointNames.lean (scope table, walkInto / findInScope / find, the descriptor machine exec = symbol insertion of "
@@ -393,6 +414,8 @@ SPEC = {
         "the names model has no overload sets with more than one function, no templates, no cbuffers and no struct-qualified "
         "paths (the code has none either: walk_into_scopes enters namespaces and enums only); those are exercised by the "
         "free-form sources of the corpus / search list through the whole-program oracle",
+        "the constant evaluator keeps the kind of a literal and of a negated literal (C02's evaluator model): assumed by "
+        "secondRecordKind; 64-bit template arguments are outside the Scalar model (parse_literal refuses 64-bit literals)",
         "the print / parse round trip of exported trees that contain casts is assumed (ParsesBack): C09's model has no cast node",
         "in the second generation no pipeline is selected (default bind group 0), as in the property's observation point",
     ],
